@@ -1,4 +1,58 @@
 import IslaVerif.Model.Smt
+import IslaVerif.Proofs.C05
+/-
+C05 — ground SMT-LIB atoms are judged exactly as Z3 judges them.
+The theorems state that the oracle model `Smt.eval` — with which Z3 itself and every ISLa decision
+point are compared on each run — implements the SMT-LIB 2.6 definitions (Ints, Strings, RegLan).
+`wt`, `divisorsOk`, `Ty`, `valTy` are defined in Proofs/C05.lean.
+-/
 namespace IslaVerif.C05
-theorem placeholder : True := trivial
+open IslaVerif IslaVerif.Smt
+
+/-- Ints: for b ≠ 0, a = b·(a div b) + (a mod b) and 0 ≤ a mod b < |b| — and this determines div/mod -/
+theorem divMod_spec (a b : Int) (hb : b ≠ 0) :
+    a = b * smtDiv a b + smtMod a b ∧ 0 ≤ smtMod a b ∧ smtMod a b < (Int.ofNat b.natAbs) := divMod_spec' a b hb
+theorem divMod_unique (a b q r : Int) (hb : b ≠ 0) (h : a = b * q + r) (h0 : 0 ≤ r)
+    (h1 : r < (Int.ofNat b.natAbs)) : q = smtDiv a b ∧ r = smtMod a b := divMod_unique' a b q r hb h h0 h1
+
+/-- Strings: substr / at / indexof / replace meet their SMT-LIB definitions on ALL arguments,
+including negative and out-of-range indices and empty patterns -/
+theorem substr_spec (w : List Char) (m n : Int) :
+    (0 ≤ m ∧ m < w.length ∧ 0 < n →
+      ∃ w1 w3, w = w1 ++ strSubstr w m n ++ w3 ∧ (w1.length : Int) = m ∧
+        ((strSubstr w m n).length : Int) = min n (w.length - m)) ∧
+    (¬ (0 ≤ m ∧ m < w.length ∧ 0 < n) → strSubstr w m n = []) := substr_spec' w m n
+theorem at_spec (w : List Char) (m : Int) :
+    (0 ≤ m ∧ m < w.length → ∃ c, w[m.toNat]? = some c ∧ strAtF w m = [c]) ∧
+    (¬ (0 ≤ m ∧ m < w.length) → strAtF w m = []) := at_spec' w m
+theorem indexOf_spec (s t : List Char) (i : Int) :
+    (strIndexOf s t i = -1 ↔ (i < 0 ∨ i > s.length ∨ ∀ k : Nat, i ≤ k → k ≤ s.length → ¬ t <+: s.drop k)) ∧
+    (∀ j : Nat, strIndexOf s t i = j →
+      i ≤ j ∧ t <+: s.drop j ∧ ∀ k : Nat, i ≤ k → k < j → ¬ t <+: s.drop k) := indexOf_spec' s t i
+theorem replace_spec (s t t' : List Char) :
+    (strContains s t = false → strReplace s t t' = s) ∧
+    (strContains s t = true → ∃ u v, s = u ++ t ++ v ∧ strReplace s t t' = u ++ t' ++ v ∧
+      ∀ k, k < u.length → ¬ t <+: s.drop k) := replace_spec' s t t'
+theorem toInt_fromInt (n : Int) (h : 0 ≤ n) : strToInt (strFromInt n) = n := toInt_fromInt' n h
+theorem toInt_nonnumeral (s : List Char) (h : s = [] ∨ ∃ c ∈ s, isDigitC c = false) : strToInt s = -1 :=
+  toInt_nonnumeral' s h
+
+/-- RegLan: membership atoms are decided according to the SMT-LIB denotation of the regex -/
+theorem inRe_spec (s : List Char) (r : Re) :
+    eval (.inRe (.strLit s) r) = some (.bool (decide (Re.matchB r s = true))) ∧
+    (Re.matchB r s = true ↔ Re.Lang r s) := inRe_spec' s r
+
+/-- evaluation never fails on a well-typed term unless a divisor is zero, and yields a value of the
+term's type ("never raises instead of answering", for the oracle) -/
+theorem eval_defined (t : Term) (τ : Ty) (h : wt t τ = true) (hd : divisorsOk t = true) :
+    ∃ v, eval t = some v ∧ valTy v = τ := eval_defined' t τ h hd
+theorem eval_type (t : Term) (τ : Ty) (v : Val) (h : wt t τ = true) (he : eval t = some v) : valTy v = τ :=
+  eval_type' t τ v h he
+
+/-! non-vacuity -/
+example : smtDiv (-7) 2 = -4 ∧ smtMod (-7) 2 = 1 ∧ smtDiv 7 (-2) = -3 ∧ smtMod 7 (-2) = 1 := by decide
+example : eval (.eq (.strAt (.strLit "ab".toList) (.intLit 5)) (.strLit [])) = some (.bool true) := by decide
+example : wt (.eq (.div (.intLit 7) (.len (.strLit ['a']))) (.intLit 7)) .bool = true ∧
+    divisorsOk (.eq (.div (.intLit 7) (.len (.strLit ['a']))) (.intLit 7)) = true := by decide
+
 end IslaVerif.C05
